@@ -1143,6 +1143,16 @@ theorem spatial_source_into_flat_stack_gradient {c h w kh kw k : ℕ} (n : Netwo
     rw [← this]
     exact h6
 
+/-- non-vacuity of the table hypotheses of `spatial_source_into_flat_stack_gradient`: with three dense layers after the
+    convolution, the image feeding the first and the third dense layer while the second feeds itself is an admissible
+    table (`(target, source)`; distinct targets, sources not after their targets, every target a dense layer) -/
+example : (([(1, 0), (3, 0), (2, 2)] : List (Nat × Nat)).map Prod.fst).Nodup ∧
+    ∀ e ∈ ([(1, 0), (3, 0), (2, 2)] : List (Nat × Nat)), e.2 ≤ e.1 ∧ 1 ≤ e.1 ∧ e.1 < 3 + 1 := by
+  refine ⟨by decide, ?_⟩
+  intro e he
+  simp only [List.mem_cons, List.not_mem_nil, or_false] at he
+  rcases he with rfl | rfl | rfl <;> decide
+
 open LayerChain SkipWalk SkipNet SkipPad SkipTyped SkipTypedE VJP in
 /-- **typed layers, any table, position-indexed encodings**: `typed_layers_any_skips_network_gradient` with the tensor
     form of a slot chosen per position (`enc j k`): two positions of one slot can be connected as soon as the encodings
